@@ -27,14 +27,12 @@ theorem precedence_values :
     precedence .tAdd = 4 ∧ precedence .tSub = 4 ∧ precedence .tMul = 5 ∧ precedence .tNot = 6 ∧
     precedence .tNegate = 6 := by decide
 
-/-- token types that can stand in front of an operand in printed tokens (`tInvalid` = start of input) -/
-def beforeOperand : List ItemType :=
-  [.tInvalid, .tLeftParen, .tLeftBracket, .tQuestionKey, .tComma, .tColon, .tTernIf, .tNot, .tNegate] ++
-    BinOp.all.map tokOf
-
-/-- lexer-facing half: after every token that can precede an operand the lexer reads `-` as unary
-    minus / the sign of a number (`lexNegative`, probed on the running code) -/
-theorem unary_minus_after_covers : ∀ t ∈ beforeOperand, t ∈ Gen.ParseTables.unaryMinusAfter := by decide
+/-- lexer-facing half (with `Props.C17.minus_context`): after every token that can precede an operand in
+    printed tokens the lexer reads `-` as unary minus / the sign of a number (`lexNegative`, probed on
+    the running code), and after every token an operand can end with it reads a binary minus -/
+theorem unary_minus_after_covers :
+    (∀ t ∈ SoyVerif.Lemmas.ParserAdj.beforeOperand, t ∈ Gen.ParseTables.unaryMinusAfter) ∧
+    (∀ t ∈ SoyVerif.Lemmas.ParserAdj.afterOperand, t ∉ Gen.ParseTables.unaryMinusAfter) := by decide
 
 section
 variable (ff : UInt64 → Bytes) (pf : Bytes → Option UInt64)
